@@ -62,6 +62,9 @@ mut("C04", "tdm-transform-skips-z", "quantarhei/qm/hilbertspace/dmoment.py",
     "        for i in range(3):\n            self._data[:,:,i] = numpy.dot(S1,numpy.dot(self._data[:,:,i],SS))",
     "        for i in range(2):\n            self._data[:,:,i] = numpy.dot(S1,numpy.dot(self._data[:,:,i],SS))")
 
+mut("C04", "tdredfield-ops-Ld-not-transformed", "quantarhei/qm/liouvillespace/tdredfieldtensor.py",
+    "                    self._Ld[tt, m, :, :] = \\\n                    numpy.dot(S1,numpy.dot(self._Ld[tt, m, :, :],SS))            \n", "")
+
 # ------------------------------------------------------------------ C05
 mut("C05", "exit-restores-internal-instead-of-backup", MAN,
     "        self.manager.set_current_units(\"energy\",self.units_backup)\n        self.manager._in_eu_count -= 1",
